@@ -224,7 +224,9 @@ def resume_cell(S, d, level, out_len, cap, pool):
 
 BOUNDS = {
     'quick': {'strategy': 'dimension-wise d=2 (lmin,lmax)=(1,2), versions 6 and 3, boundary on/off', 'cap on M2': 27, 'decisions': 'one of the first 2 intervals per round',
-              'persistence': [False, True], 'output length': [1, 2]},
+              'persistence': [False, True], 'output length': [1, 2],
+              'extend-split': 'd=2 (1,2), versions 0/1, automatic extend/split on/off, cap on M2 45 (26 with automatic), dill on one job', 'cell': 'd=2, level 1 (cap 14) and 2 (cap 30)',
+              'real estimator': 'dimension-wise, symbolic tolerance, one re-evaluation of the interrupted state', 'refinement_container route': 'dimension-wise cap 27, extend-split cap 34'},
     'thorough': {'strategy': 'dimension-wise d=2 (1,2) and (1,3), versions 6, 3, 7', 'cap on M2': 33, 'decisions': 'one of the first 3 intervals per round',
                  'persistence': [False, True], 'output length': [1, 2]},
 }
@@ -237,13 +239,13 @@ META = {
     'assumptions': ['refinement decisions are a function of the refinement structure (scripted, solver-chosen): this is what "the same run" means for an arbitrary integrand/estimator',
                     'limits 0 <= M1 <= M2 <= cap symbolic; the tolerance can never be met (tol=-1), so only the limits stop the runs',
                     'dill is trusted to round-trip ordinary Python state; proxies pickle as SMT-LIB text'],
-    'outside': ['extend-split and cell strategies (save/restore of their refinement objects is not exercised here)', 'more evaluations than the cap allows'],
+    'outside': ['cell strategy with save/restore', 'more evaluations than the cap allows', 'continuations of runs that are driven by the real error estimators beyond one re-evaluation (resume-tol)'],
 }
 
 MANIFEST_ENTRY = {
     'text': 'Two real driver runs on the same uninterpreted integrand - one interrupted at a symbolic limit M1 (optionally saved with dill and restored) and continued to M2, one '
             'uninterrupted - are compared state by state; the solver enumerates every (interruption point, stopping point) pair within the cap and decides equality of the results as terms in F.',
-    'note': 'Trusted: z3, LIFT proxies/numpy facade, dill. Bounded by the evaluation cap and the decision pool.',
+    'note': 'Trusted: z3, LIFT proxies/numpy facade, dill. Bounded by the evaluation cap and the decision pool. Strategies: dimension-wise, extend-split (with dill), cell; both continuation routes (continue_adaptive_refinement, refinement_container). Known finding C14-K1 (extend-split through refinement_container) is reported as KNOWN-FINDING.',
 }
 
 
@@ -272,7 +274,7 @@ def jobs(tier):
     es_cfgs = [(2, 1, 2, 0, 1, False, 1, 45, False), (2, 1, 2, 0, 1, False, 2, 45, True), (2, 1, 2, 1, 2, False, 1, 45, False), (2, 1, 2, 0, 1, True, 1, 26, False)]
     if not q:
         es_cfgs += [(2, 1, 2, 0, 1, False, 1, 60, False), (2, 1, 2, 0, 1, False, 2, 60, True), (2, 1, 2, 1, 2, False, 1, 60, False), (2, 1, 2, 0, 1, True, 1, 36, False)]
-        es_cfgs += [(2, 1, 2, 2, 1, False, 2, 110, True), (2, 1, 2, 0, 2, False, 1, 110, False), (2, 1, 3, 0, 1, False, 1, 130, True), (2, 1, 2, 0, 1, True, 2, 60, True)]
+        es_cfgs += [(2, 1, 2, 2, 1, False, 2, 60, True), (2, 1, 2, 0, 2, False, 1, 60, False), (2, 1, 2, 0, 1, True, 2, 36, True)]
     for (d, lmin, lmax, v, nrbe, auto, out_len, cap, persist) in es_cfgs:
         js.append(Job('resume-es[d=%d,l=%d-%d,v=%d,nrbe=%d%s,out=%d,cap=%d,%s]' % (d, lmin, lmax, v, nrbe, ',auto' if auto else '', out_len, cap, 'dill' if persist else 'mem'), resume_es,
                       {'d': d, 'lmin': lmin, 'lmax': lmax, 'version': v, 'nrbe': nrbe, 'auto': auto, 'out_len': out_len, 'cap': cap, 'pool': 1 if (q and auto) else 2, 'persist': persist},
